@@ -6,8 +6,8 @@
     features(flow) -> tuple[str, ...]                   coarse optional-field presence (for case signatures)
 
 All randomness comes from the `rng` argument (a random.Random).  Every field that takes part in `get_state()` is drawn
-from a value pool of its declared type: bytes include non-UTF-8 and file-format look-alikes, str includes astral and
-control characters (never lone surrogates: they are not encodable), floats include negative/huge/tiny/inf/nan (nan and
+from a value pool of its declared type: bytes include non-UTF-8 and file-format look-alikes, str includes multi-byte (ü, €), astral (😀), combining and
+control characters in every text field of every flow type (never lone surrogates: they are not encodable), floats include negative/huge/tiny/inf/nan (nan and
 inf only with `exotic_floats=True`, the default), optional fields are None about a third of the time, certificates come
 from the PEM files shipped in the repository's test data, proxy modes from a list of valid mode specs.
 `size`: "small" keeps bodies/lists short (files of 1-3 kB per flow), "normal" allows bodies up to ~20 kB.
@@ -90,7 +90,8 @@ _OPCODES = [0, 1, 2, 8, 9, 10]
 
 _STR_ATOMS = ["", "a", "example.com", "address", " ", "\n", "\r\n", "\x00", "\x7f", "\x85", "é", "ß", "日本語", "🍇", "\U0001f600", "\U0010ffff", "﻿",
               ":", ";", ",", "}", "]", "5:hello,", "~", "\\", "'", '"', "%s", "{", ":default:", ":grapes:", "request", "http", "0", "-1", "true", "None",
-              "xn--bcher-kva.example", "A" * 40, "‮", "퟿", ""]
+              "xn--bcher-kva.example", "A" * 40, "‮", "퟿", "",
+              "ü", "€", "😀", "e\u0301", "bücher.example", "Ошибка: соединение сброшено", "naïve café", "\u200d"]
 _BYTES_ATOMS = [b"", b"a", b"GET", b"HTTP/1.1", b"http/1.1", b"h2", b"/", b"/path?q=1", b"example.com:443", b"\x00", b"\xff", b"\xfe\xff", b"\xc3\x28", b"\xed\xa0\x80",
                 b"\r\n", b"\n", b" ", b"5:hello,", b"0:~", b"4:true!", b"}", b"]", b":", b",", b";", b"12:", b"\xf0\x9f\x8d\x87", b"content-length", b"Host",
                 b"{\"log\":{}}", b"\xef\xbb\xbf{", b"999999999999:", b"x" * 64]
@@ -151,7 +152,7 @@ def g_bool(r) -> bool:
 
 
 def g_host(r) -> str:
-    return r.choice(["127.0.0.1", "192.168.0.1", "::1", "fe80::1%eth0", "example.com", "address", "", "xn--bcher-kva.example", "日本語.example", "a" * 63 + ".example", g_str(r, 2)])
+    return r.choice(["127.0.0.1", "192.168.0.1", "::1", "fe80::1%eth0", "example.com", "address", "", "xn--bcher-kva.example", "bücher.example", "日本語.example", "a" * 63 + ".example", g_str(r, 2)])
 
 
 def g_addr(r, four=True):
@@ -215,7 +216,7 @@ def _conn_common(r, c, small):
     c.cipher = g_opt(r, lambda r: r.choice(["TLS_AES_256_GCM_SHA384", "cipher", g_str(r)]), 0.4)
     c.cipher_list = [r.choice(["TLS_AES_128_GCM_SHA256", "ECDHE-RSA-AES128-SHA", g_str(r)]) for _ in range(r.choice([0, 0, 1, 2, 5]))]
     c.tls_version = g_opt(r, lambda r: r.choice(_TLS_VERSIONS), 0.3)
-    c.sni = g_opt(r, lambda r: r.choice(["example.com", "address", g_str(r)]), 0.3)
+    c.sni = g_opt(r, lambda r: r.choice(["example.com", "address", "bücher.example", g_str(r)]), 0.3)
     c.timestamp_end = g_ofloat(r)
     c.timestamp_tls_setup = g_ofloat(r)
 
@@ -244,7 +245,7 @@ def gen_server(r, small=False) -> connection.Server:
 
 
 def gen_error(r) -> flow.Error:
-    return flow.Error(r.choice(["error", flow.Error.KILLED_MESSAGE, g_str(r)]), g_float(r))
+    return flow.Error(r.choice(["error", flow.Error.KILLED_MESSAGE, "Verbindung zurückgesetzt ✗", g_str(r)]), g_float(r))
 
 
 def g_headers(r, small=False):
@@ -318,7 +319,7 @@ def gen_websocket(r, small=False) -> websocket.WebSocketData:
 
 def gen_dns_message(r, small=False) -> dns.DNSMessage:
     def q(r):
-        return dns.Question(r.choice(["example.com", "", "dns.google", g_str(r)]), r.choice([1, 28, 5, 16, 65, g_int(r)]), r.choice([1, 3, 255, g_int(r)]))
+        return dns.Question(r.choice(["example.com", "", "dns.google", "bücher.example", g_str(r)]), r.choice([1, 28, 5, 16, 65, g_int(r)]), r.choice([1, 3, 255, g_int(r)]))
 
     def rr(r):
         return dns.ResourceRecord(
@@ -342,7 +343,7 @@ def _flow_common(r, f: flow.Flow):
     f.is_replay = r.choice([None, None, "request", "response"])
     f.marked = r.choice(["", "", ":default:", ":grapes:", "🍇", g_str(r)])
     f.metadata = g_metadict(r) if r.random() < 0.6 else {}
-    f.comment = r.choice(["", "", "a comment", g_str(r, 8)])
+    f.comment = r.choice(["", "", "a comment", "prüfen 😀", g_str(r, 8)])
     f.timestamp_created = g_float(r)
     f.live = g_bool(r)
 
